@@ -698,20 +698,29 @@ func persistBasicSegment(
 		ioCh <- ioResult{kind: "buf", want: len(seg.buf), got: bufWritten, err: err}
 	}()
 
+	// NOTE: Both writes are always awaited, also after an error: a write
+	// that is still in flight must not land later, on top of whatever a
+	// retry of the persistence round has written to the file by then.
+	var resErr error
 	resMap := map[string]ioResult{}
 	for len(resMap) < 2 {
 		res := <-ioCh
-		if res.err != nil {
-			return rv, res.err
-		}
-		if res.want != res.got {
-			return rv, fmt.Errorf("store: persistSegment error writing,"+
-				" res: %+v, err: %v", res, res.err)
+		if resErr == nil {
+			if res.err != nil {
+				resErr = res.err
+			} else if res.want != res.got {
+				resErr = fmt.Errorf("store: persistSegment error writing,"+
+					" res: %+v, err: %v", res, res.err)
+			}
 		}
 		resMap[res.kind] = res
 	}
 
 	close(ioCh)
+
+	if resErr != nil {
+		return rv, resErr
+	}
 
 	return SegmentLoc{
 		Kind:       seg.Kind(),
